@@ -219,6 +219,27 @@ def main(run):
                 distinct.add(("slit", kind, fname, L_, W_))
                 if kind == "length":
                     run.sample(dict(kind="slit-length", family=fname, q_length=L_, points=ns, errors=errs))
+    # ------------------------------------------------------------------ mixed slit next to the beam centre
+    # data points with q < q_width: the window [q - W, q + W] straddles zero and the documented integrand is I(|q + v|),
+    # i.e. the part below zero is folded back.  For the cubic polynomial the implementation reproduces the double
+    # integral to 2e-4 (relative) whatever the grid (61-point rule, 0.02 q_min cut); three times that is demanded.
+    stats["slit_mixed_lowq"] = 0
+    fpoly = FAMILIES["polynomial"]
+    for L_, W_ in ([(0.05, 0.03), (0.02, 0.01)] if not thorough else [(0.05, 0.03), (0.02, 0.01), (0.1, 0.05), (0.03, 0.02)]):
+        q = np.array([0.3 * W_, 0.7 * W_, 0.95 * W_, 2.5 * W_]) * rng.uniform(0.97, 1.03)
+        ex = np.array([dblquad(lambda u, v: float(fpoly(math.sqrt((qi + v) ** 2 + u * u))), -W_, W_, 0, L_, epsabs=1e-13, epsrel=1e-10)[0] / (2 * W_ * L_) for qi in q])
+        rels = []
+        for n in (480, 1920):
+            qc = np.unique(np.concatenate([np.linspace(1e-5, math.sqrt((q.max() + W_) ** 2 + L_ ** 2) * 1.05, n), q]))
+            r = Slit1D(q, q_length=L_, q_width=W_, q_calc=qc)
+            rels.append(float(np.max(np.abs(r.apply(fpoly(r.q_calc)) - ex) / np.abs(ex))))
+            evals += 1
+        stats["slit_mixed_lowq"] += 1
+        desc = dict(kind="slit-mixed-lowq", q=list(map(float, q)), q_length=L_, q_width=W_, relative_errors=rels, exact=list(map(float, ex)))
+        if max(rels) > 6e-4:
+            run.add(Finding("C04:slit-mixed-lowq", "mixed slit (L=%.3g, W=%.3g) with data points at q < W: relative errors %s against (1/2WL) int int I(sqrt((q+v)^2+u^2)) du dv - the window below zero is not folded back" % (L_, W_, rels), desc))
+        else:
+            distinct.add(("slit-mixed-lowq", L_, W_))
     # ------------------------------------------------------------------ 2-D
     quad_forms = [(1.0, 0.0, 1.0, 0.1), (3.0, -1.0, 0.5, 0.0), (0.2, 2.0, 4.0, 1.0)]
     for (a, b, c, d) in quad_forms:
